@@ -683,7 +683,11 @@ func (ex *Explorer) runOnce(body func()) *Execution {
 	select {
 	case <-s.finished:
 	case <-time.After(ex.opts.Watchdog):
-		panic(fmt.Sprintf("vsched: watchdog: execution did not finish in %v (an unmanaged blocking call?) blocked=%s", ex.opts.Watchdog, blockedReport()))
+		tail := s.log
+		if len(tail) > 40 {
+			tail = tail[len(tail)-40:]
+		}
+		panic(fmt.Sprintf("vsched: watchdog: execution did not finish in %v (an unmanaged blocking call?) blocked=%s cur=%v log tail=%v", ex.opts.Watchdog, blockedReport(), s.cur, tail))
 	}
 	// Unwind whatever is still parked, one thread at a time.
 	nthreads := len(s.threads)
